@@ -411,6 +411,38 @@ def check_main(rep, prog, main, algo, pos=False):
             val = p2.c[2].strip_all()
             if val.k in ex.CALL_KINDS and val.j.get('callee') in algo:
                 rep.ok('R11c', s, main, whatw, 'prints the call result directly')
+            elif val.cv is not None or val.k in ('FloatingLiteral', 'IntegerLiteral'):
+                # a constant is printed as the weight: right only where every graph reaching the print is a forest.  The guards are evaluated
+                # over small graph shapes; a simple graph with n >= 3 vertices and m >= 3 edges can contain a triangle
+                gv, _rd = graph_var(main)
+                bad = unknown = None
+                for n_ in range(0, 8):
+                    for m_ in range(0, 8):
+                        if m_ > n_ * (n_ - 1) // 2:
+                            continue
+
+                        def bind(s_, m_=m_, n_=n_):
+                            if s_.k == 'CallExpr' and s_.callee and s_.callee['name'] in ('num_edges', 'num_vertices') and s_.args() and ex.var_of(s_.args()[0]) == gv:
+                                return m_ if s_.callee['name'] == 'num_edges' else n_
+                            return None
+                        try:
+                            holds = all(bool(ex.ceval(c_, bind)) == pol_ for (c_, pol_) in ex.ast_conditions(p2)
+                                        if any(x_.k == 'CallExpr' and x_.callee and x_.callee['name'] in ('num_edges', 'num_vertices') for x_ in c_.walk()))
+                            relevant = [c_ for (c_, pol_) in ex.ast_conditions(p2)
+                                        if any(x_.k == 'CallExpr' and x_.callee and x_.callee['name'] in ('num_edges', 'num_vertices') for x_ in c_.walk())]
+                        except ex.Unknown as e_:
+                            unknown = str(e_)
+                            continue
+                        if relevant and holds and m_ >= 3 and n_ >= 3 and bad is None:
+                            bad = (m_, n_)
+                if bad:
+                    rep.violation('R11c', s, main, whatw, 'the constant `%s` is printed as the weight without running an algorithm on a path that a graph with %d vertices and %d edges '
+                                  'takes - e.g. a triangle plus isolated vertices / a second component, whose cycle space is not trivial (dimension m - n + c)' % (
+                                      val.text(12), bad[1], bad[0]), key='R11c|%s|constant-weight' % tu)
+                elif unknown or not [c_ for (c_, pol_) in ex.ast_conditions(p2)]:
+                    rep.undecided('R11c', s, main, whatw, 'a constant is printed under a condition that is not over num_edges / num_vertices')
+                else:
+                    rep.ok('R11c', s, main, whatw, 'constant printed only for graphs too small to contain a cycle')
             else:
                 rep.undecided('R11c', s, main, whatw, 'printed value is not a variable')
             continue
